@@ -40,7 +40,8 @@ class SimCheck:
 
         def body(v):
             ci, raws = v
-            cfg = self.cfgs[ci % len(self.cfgs)]
+            cfgs = self.cfgs[pf.name] if isinstance(self.cfgs, dict) else self.cfgs
+            cfg = cfgs[ci % len(cfgs)]
             w = mgen.run_history(cfg, pf, raws, self.prop)
             if self.nontrivial:
                 self.nontrivial(w, res)
@@ -55,7 +56,7 @@ class SimCheck:
             if len(res.samples) < 2 and w.shapes:
                 res.sample({"cfg": cfg, "profile": pf.name, "ops": w.trace[:80]})
 
-        strat = st.tuples(st.integers(0, len(self.cfgs) - 1),
+        strat = st.tuples(st.integers(0, 5),
                           mgen.raw_ops(pf, max_len, min_len=self.min_len, min_clients=self.min_clients))
         hyp_run(body, strat, seed, n_examples, res, collect=self.collect)
         return res
